@@ -236,6 +236,7 @@ func TestC09Removed(t *testing.T) {
 			if raced {
 				if rec.Known(fpRace) {
 					known = true
+					rec.Excluded(1)
 					return
 				}
 				t.Fatalf("C09 violated [%s]: removed object %s readable again: %s (%s)%s\n  shard: %s\n  history: %s\n  op errors: %v",
@@ -286,6 +287,21 @@ func TestC09Removed(t *testing.T) {
 				}
 			}
 		}
+		// once a removal completed, prefer the events the property is about
+		w.Bias = func(add func(string, int)) {
+			if len(m.removed) == 0 {
+				if w.AnyPending() {
+					add(crashrig.KGC, 6)
+				}
+				return
+			}
+			add(crashrig.KResync, 4)
+			add(crashrig.KReopen, 2)
+			add(crashrig.KEpoch, 3)
+			add(crashrig.KFlush, 2)
+			add(crashrig.KTick, 2)
+		}
+
 		nontrivial := false
 		defer func() {
 			var ls []string
@@ -297,7 +313,7 @@ func TestC09Removed(t *testing.T) {
 		}()
 
 		seen := map[string]bool{}
-		n := rapid.IntRange(3, 10).Draw(t, "n")
+		n := rapid.IntRange(4, 10).Draw(t, "n")
 		for i := 0; i < n; i++ {
 			op := w.Draw(t, crashrig.Allow{Race: true, Reopen: true, Resync: true}, false)
 			ops = append(ops, op)
